@@ -15,6 +15,12 @@ CLAIMED = {
             "to_si/from_si and compared with an independently typed table; the discrete space is covered completely, values by a 5-point alphabet (linearity makes that sufficient)",
             "US zero-order wall coefficient area constant not judged"),
 }
+CLAIMED["C01"] = ("exploration", "deviation-bounded exhaustive enumeration of tiny networks (7 skeletons x all subsets of <=2 deviations), every run executed on WNTRSimulator, node-balance invariant on every reported step",
+    "all skeleton x deviation-subset configurations inside the bound are simulated with the real simulator and the mass-balance identities are evaluated on the reported tables at every node and step; DD demand compared with an independent pattern evaluator",
+    "non-converged runs are excluded and counted")
+CLAIMED["C02"] = ("exploration", "exhaustive crossing of link kind x parameter alphabet x head-difference alphabet x HW approximation in an isolation rig, plus deviation-bounded enumeration of tiny networks; per-link law oracle chosen by reported status",
+    "every link kind/status/parameter combination of the alphabets is simulated between fixed heads and inside the netspace networks; the documented head-flow relation is re-evaluated from reported flows and heads at every step",
+    "two open known findings (pump reverse flow in infeasible placements); tolerances derived from Newton TOL and the documented smoothing terms")
 NOT_YET = "check not built yet in this session (work in progress, see DESIGN.md section 4)"
 
 
